@@ -108,3 +108,37 @@ Definition S_link_dcf_par_load : Prop := forall le st f text g sels arrival rest
   /\ exists bs lens,
        par_comp le cs p cuts g sels arrival = SpliceOk bs lens (nsum (map nlen g)) (nlen g)
        /\ load_seq le text (bs ++ rest) = Some (g, rest).
+
+(** ** Loading from the three files (C12 o C05 o C03): the offsets table is not given but
+    READ from the .offsets file (n+1 γ-coded gaps, n taken from the properties text,
+    cumulated), and random access through it returns each node's list; the [length] key of
+    the text is the last offset read. *)
+Definition load_offsets (n : N) (obits : bits) : option (list N) :=
+  match dec_gammas (S (N.to_nat n)) obits with
+  | Some (gaps, _) => Some (tl (prefix_sums 0 gaps))
+  | None => None
+  end.
+
+Definition load_ra_files (le : bool) (text : string) (obits s : bits) (fuel : nat) (x : N)
+  : option (list N) :=
+  match parse_properties le text with
+  | Some (n, _, f) =>
+      match load_offsets n obits with
+      | Some offs =>
+          ra_labels bits (rd_bits le (fl_codes f)) (seek_bits offs s) (params_of_flags f) fuel x
+      | None => None
+      end
+  | None => None
+  end.
+
+Definition S_link_load_files : Prop := forall le st f text g sel rest orest fuel x l,
+  to_props le st f = Some text -> stats_for g st ->
+  Forall inc g -> valid_sel (params_of_flags f) [] g sel = true ->
+  nth_opt g x = Some l -> (x < fuel)%nat ->
+  let cs := fl_codes f in let p := params_of_flags f in
+  let recs := encode_graph p 0 g sel in
+  let obits := offsets_bits (node_bitlens le cs recs) ++ orest in
+  load_offsets (nlen g) obits = Some (enc_offs le cs p g sel)
+  /\ load_ra_files le text obits (enc_stream le cs p g sel rest) fuel (N.of_nat x) = Some l
+  /\ (s_bits st = nlen (graph_bits le cs recs) ->
+      props_length text = Some (last (enc_offs le cs p g sel) 0)).
